@@ -100,6 +100,11 @@ func (in *Interp) errorString(e Iface) string {
 			panic(r)
 		}
 	}()
+	// error texts are never data: symbolic operands are printed as placeholders instead
+	// of being concretised (which would fork the path)
+	save := in.noConcFmt
+	in.noConcFmt = true
+	defer func() { in.noConcFmt = save }()
 	v := in.invokeMethod(e, "Error", nil)
 	if s, ok := v.(Str); ok {
 		if s.Sym != nil {
@@ -365,7 +370,7 @@ func init() {
 
 	// ---- fmt ----
 	reg("fmt.Sprintf", func(in *Interp, fr *frame, a []Value, c *ssa.CallCommon) Value {
-		return Str{S: fmt.Sprintf(in.strArg(a[0]), in.fmtArgs(a[1], true)...)}
+		return Str{S: fmt.Sprintf(in.strArg(a[0]), in.fmtArgs(a[1], !in.noConcFmt)...)}
 	})
 	reg("fmt.Sprint", func(in *Interp, fr *frame, a []Value, c *ssa.CallCommon) Value {
 		return Str{S: fmt.Sprint(in.fmtArgs(a[0], true)...)}
